@@ -5,6 +5,8 @@ the schedule and returns a Ctx. The caller judges, builds the RunResult and clos
 """
 from __future__ import annotations
 
+from pathlib import Path
+
 from cfdpsim.world import ACK, UNACK, Cfg, World, tid_t
 
 from spacepackets.cfdp import TransactionId
@@ -86,6 +88,9 @@ def bounded_faults(t, attach=None, force=None) -> Ctx:
     w.link.enabled = set(FAULT_SETS[t.choose(len(FAULT_SETS), "fault set")])
     w.link.rate = [(1, 5), (1, 3), (1, 10), (1, 2)][t.choose(4, "fault rate")]
     w.link.budget = K
+    # timer / PDU arrival races: in a third of the runs every poll interval is drawn from the tape
+    if t.choose(3, "pacing") == 2:
+        w.pacing = "random"
     ctx.info["K"] = K
     longest = max(cfg.ack_s, cfg.nak_s)
     bound_ms = int((2 * cfg.ack_lim + cfg.nak_lim + 6) * longest * 1000) + max(w.link.delays_ms) + 1000
@@ -227,10 +232,14 @@ class CancelTrigger:
         self.ctx = ctx
         self.plan = plan  # list of (after_call_no, side, wrong_id)
         self.done = []
+        self.prev_tid = None  # id of a transaction the handlers finished earlier (used for wrong-id cancels)
+        self.base = None
 
     def on_call(self, w, rec):
+        if self.base is None:
+            self.base = rec.seq - 1  # calls of a prelude transaction do not count
         for p in self.plan:
-            if p[0] == rec.seq:
+            if p[0] == rec.seq - self.base:
                 w.push(w.clock.t, ("fn", self._mk(p)))
 
     def _mk(self, p):
@@ -239,7 +248,9 @@ class CancelTrigger:
             ent, hk = (w.a, "src") if side == 0 else (w.b, "dst")
             h = ent.handlers[hk]
             live = h.transaction_id
-            if wrong or live is None:
+            if (wrong or live is None) and self.prev_tid is not None and (live is None or self.prev_tid != live):
+                tid = self.prev_tid
+            elif wrong or live is None:
                 tid = TransactionId(UnsignedByteField(1, w.cfg.idw), UnsignedByteField(4242 % (1 << (8 * w.cfg.seqw)) , w.cfg.seqw))
                 if live is not None and tid == live:
                     tid = TransactionId(UnsignedByteField(7, w.cfg.idw), live.seq_num)
@@ -290,9 +301,25 @@ def cancel(t, attach=None, force=None) -> Ctx:
         plan.append((after, side, wrong))
     trig = CancelTrigger(ctx, plan)
     ctx.info["trigger"] = trig
-    w.monitors.append(trig)
     w.max_events = 6000
     w.max_t = 200_000
+    # in a quarter of the runs the handlers have already completed a transaction (not judged); wrong-id cancel
+    # requests then name that finished transaction
+    if t.choose(4, "prelude transaction") == 3:
+        req = w.put_request_obj(None)
+        req.dest_file = Path("dst/prev.bin")
+        if not cfg.metadata_only:
+            w.call(w.a, "src", "put", arg=req)
+            w.start_polls()
+            w.run()
+            prev = w.a.seqp.issued[-1] if w.a.seqp.issued else None
+            if prev is not None and w.all_idle():
+                trig.prev_tid = TransactionId(UnsignedByteField(1, cfg.idw), UnsignedByteField(prev, cfg.seqw))
+            w.heap.clear()
+            w.pending = 0
+            w.polls_stopped = True
+            w.probe("prelude_transaction")
+    w.monitors.append(trig)
     _start(ctx, attach)
     ctx.reason = w.run()
     ctx.nontrivial = any(not d[2] and d[0].ret for d in trig.done)
